@@ -417,7 +417,7 @@ class StringMagic:
     def PADLEFT(self, args):
         original_string = args[0]
         try:
-            width = int(args[1])
+            width = min(int(args[1]), 500)  # MediaWiki caps the padded length at 500
         except ValueError:
             return original_string
 
@@ -435,7 +435,7 @@ class StringMagic:
     def PADRIGHT(self, args):
         original_string = args[0]
         try:
-            width = int(args[1])
+            width = min(int(args[1]), 500)  # MediaWiki caps the padded length at 500
         except ValueError:
             return original_string
 
